@@ -120,11 +120,17 @@ def docTime (froms : List From) : Nat → Nat → Int → Int
          | none => t
          | some j => docTime froms fuel j t))
 
-/-- The names the point is grouped by: listed names, or all tag keys under `*`, in sorted order (the library sort). -/
+/-- The names the point is grouped by: all tag keys under `*`, else the listed names — in sorted order (the library sort), a
+name listed twice counted once (groupBy('host','host') groups like groupBy('host')). -/
 def docTagNames (o : FromOpts) (tags : List (String × String)) : List String :=
-  (if o.star then tags.map (·.1) else o.dims).mergeSort (fun a b => decide (a ≤ b))
+  if o.star then (tags.map (·.1)).mergeSort (fun a b => decide (a ≤ b))
+  else C06.uniqueSorted (o.dims.mergeSort (fun a b => decide (a ≤ b)))
 
-/-- `r` is `l` in sorted order (what `docTagNames` MEANS; theorem `docTagNames_sorted_perm`). -/
+/-- `r` lists the members of `l` in strictly increasing order (what `docTagNames` MEANS for listed names; theorem
+`tagNames_is_sorted_listing`): sorted, nothing twice, nothing added, nothing lost. -/
+def IsSortedListingOf (l r : List String) : Prop := r.Pairwise (· < ·) ∧ ∀ t, t ∈ r ↔ t ∈ l
+
+/-- `r` is `l` in sorted order (what `docTagNames` MEANS under `*`; theorem `tagNames_star_is_sorted_keys`). -/
 def IsSortedPermOf (l r : List String) : Prop := r.Pairwise (· ≤ ·) ∧ r.Perm l
 
 /-- **The documented point**: what the sink under from-node #`i` records of the point of write event `w`. -/
